@@ -218,10 +218,12 @@ class ASTRewriter(ast.NodeTransformer):
         return node
 
     def visit_If(self, node):
-        """Replace if(c,t,e) with if(c,t1), if(c,t2), ..., if(!c, e1), ..."""
+        """Replace if(c,t,e) with the assignments of both branches, each one running on
+        its own copies of the variables it assigns, followed by v = v_t if c else v_e"""
         body = flatten([self.visit(n) for n in node.body])
         orelse = flatten([self.visit(n) for n in node.orelse])
-        test_name = "_iftarg" + self.uniqd
+        uid = self.uniqd
+        test_name = "_iftarg" + uid
 
         if_l = [
             ast.Assign(
@@ -230,88 +232,46 @@ class ASTRewriter(ast.NodeTransformer):
             )
         ]
 
-        # The else branch is emitted after the (conditional) assignments of the
-        # then branch, but it has to read the variables as they were before the
-        # if: keep an alias of every variable that the then branch assigns and the
-        # else branch reads before assigning it itself
-        body_targets = set()
-        for b in body:
-            if isinstance(b, ast.Assign) and len(b.targets) == 1:
-                if isinstance(b.targets[0], ast.Name):
-                    body_targets.add(b.targets[0].id)
+        def convert(stmts, tag):
+            local = {}
+            for b in stmts:
+                if not isinstance(b, ast.Assign):
+                    raise Exception("if body only allows assigns: ", ast.dump(b))
 
-        else_targets = set()
-        for b in orelse:
-            if not isinstance(b, ast.Assign) or len(b.targets) != 1:
+                if len(b.targets) != 1 or not isinstance(b.targets[0], ast.Name):
+                    raise Exception(
+                        "if targets only allow one Name target: ", ast.dump(b)
+                    )
+
+                # Inside the branch a variable assigned by the branch is read from its
+                # copy; everything else still has the value it had before the if
+                value = b.value
+                for name, l_name in local.items():
+                    value = NameValReplacer(name, ast.Name(id=l_name)).visit(value)
+
+                target = b.targets[0].id
+                l_name = f"_if{tag}{uid}_{target}"
+                if_l.append(ast.Assign(targets=[ast.Name(id=l_name)], value=value))
+                local[target] = l_name
+            return local
+
+        then_local = convert(body, "t")
+        else_local = convert(orelse, "e")
+
+        for target in list(then_local.keys()) + [
+            t for t in else_local.keys() if t not in then_local
+        ]:
+            # Temporaries of the branches are not visible after the if
+            if target.startswith("__") or target.startswith("_if"):
                 continue
-            if not isinstance(b.targets[0], ast.Name):
-                continue
-
-            for name in sorted(body_targets - else_targets):
-                if name.startswith("_iftarg") or name not in self.env:
-                    continue
-
-                ip = IsNamePresent(name)
-                ip.visit(b.value)
-                if not ip.present:
-                    continue
-
-                pre_name = f"_ifpre{test_name[7:]}_{name}"
-                pre_assign = ast.Assign(
-                    targets=[ast.Name(id=pre_name)], value=ast.Name(id=name)
-                )
-                if all(ast.dump(pre_assign) != ast.dump(x) for x in if_l):
-                    if_l.append(pre_assign)
-                b.value = NameValReplacer(name, ast.Name(id=pre_name)).visit(b.value)
-
-            else_targets.add(b.targets[0].id)
-
-        for b in body:
-            if not isinstance(b, ast.Assign):
-                raise Exception("if body only allows assigns: ", ast.dump(b))
-
-            if len(b.targets) != 1 or not isinstance(b.targets[0], ast.Name):
-                raise Exception("if targets only allow one Name target: ", ast.dump(b))
-
-            target = b.targets[0].id
-
-            if target.startswith("__") and target not in self.env:
-                orelse_inner = ast.Name(id=target[2:])
-            else:
-                orelse_inner = ast.Name(id=target)
 
             if_l.append(
                 ast.Assign(
-                    targets=b.targets,
+                    targets=[ast.Name(id=target)],
                     value=ast.IfExp(
-                        test=ast.Name(id=test_name), body=b.value, orelse=orelse_inner
-                    ),
-                )
-            )
-
-        for b in orelse:
-            if not isinstance(b, ast.Assign):
-                raise Exception("if body only allows assigns: ", ast.dump(b))
-
-            if len(b.targets) != 1 or not isinstance(b.targets[0], ast.Name):
-                raise Exception("if targets only allow one Name target: ", ast.dump(b))
-
-            target = b.targets[0].id
-
-            if target.startswith("__") and target not in self.env:
-                orelse_inner = ast.Name(id=target[2:])
-            elif target.startswith("_iftarg") or target.startswith("_ifpre"):
-                # Test and alias of an if nested in this else branch
-                if_l.append(b)
-                continue
-            else:
-                orelse_inner = ast.Name(id=target)
-
-            if_l.append(
-                ast.Assign(
-                    targets=b.targets,
-                    value=ast.IfExp(
-                        test=ast.Name(id=test_name), orelse=b.value, body=orelse_inner
+                        test=ast.Name(id=test_name),
+                        body=ast.Name(id=then_local.get(target, target)),
+                        orelse=ast.Name(id=else_local.get(target, target)),
                     ),
                 )
             )
